@@ -23,6 +23,17 @@ Fixpoint mapM {A B} (f : A -> res B) (l : list A) : res (list B) :=
                | ErrV => ErrV | ErrB => ErrB end
   end.
 
+(* integer index expressions of the loop variable: k-i, 2*i-k, (i-k)*(i-k), i*i-k, ... *)
+Inductive lexp : Type :=
+| LVar | LConst (k : Z) | LAdd (a b : lexp) | LSub (a b : lexp) | LMul (a b : lexp).
+Fixpoint leval (e : lexp) (i : Z) : Z :=
+  match e with
+  | LVar => i | LConst k => k
+  | LAdd a b => leval a i + leval b i | LSub a b => leval a i - leval b i
+  | LMul a b => leval a i * leval b i
+  end.
+Definition is_var (e : lexp) : bool := match e with LVar => true | _ => false end.
+
 (* what the source says, after get_integer (640-689) evaluated the constant expressions *)
 Inductive sub : Type :=
 | Int (i : Z)                 (* x[i] *)
@@ -30,7 +41,8 @@ Inductive sub : Type :=
 | Sl (a b : Z)                (* x[a:b] *)
 | Sl3 (a b c : Z)             (* x[a:b:c], source order *)
 | LoopV (a b off : Z)         (* for i in a:b loop ... x[i+off] *)
-| LoopV3 (a b c off : Z).     (* for i in a:b:c loop ... x[i+off] *)
+| LoopV3 (a b c off : Z)      (* for i in a:b:c loop ... x[i+off] *)
+| LoopX (a b : Z) (e : lexp). (* for i in a:b loop ... x[e(i)], e any integer expression of i *)
 
 (* which of the repairs the tree under test contains (derived from its behaviour by the
    check; all false = /repo as of round 1; /repo after 05b675f, f098077, f8eb4b4 = true true false true) *)
@@ -38,8 +50,10 @@ Record cfg : Type := Cfg {
   chk_slice : bool;   (* constant slice bounds are range-checked (fixes/C23_slice_range_check.diff) *)
   chk_loop : bool;    (* for-loop indices are range-checked (fixes/C23_loop_index_range_check.diff) *)
   mod3 : bool;        (* a:b:c is read start:step:stop and loop values stop at `stop` (no fix yet) *)
-  empty_ok : bool     (* register_indexed_symbol skips the index-expression map for an empty loop range
+  empty_ok : bool;    (* register_indexed_symbol skips the index-expression map for an empty loop range
                          (/repo f8eb4b4): `for i in 3:1 loop x[i+1]` selects nothing instead of failing *)
+  chk_scalar_loop : bool  (* the bare loop variable as subscript of a SCALAR is rejected like every other
+                         subscript on a scalar (fixes/C23_loop_subscript_on_scalar.diff) *)
 }.
 
 (* ---- Python / NumPy ranges ------------------------------------------------------------- *)
@@ -99,15 +113,19 @@ Definition slice_path (c : cfg) (n first last step : Z) : res (list Z) :=
     shift1 (ca_slice n (Some (first - 1)) (Some last) step).
 
 (* ---- ForLoop.__init__ :55-58, register_indexed_symbol :63-72, exitForEquation :463,512 ---- *)
-Definition loop_path (c : cfg) (n start stop step off : Z) : res (list Z) :=
+(* f = the index expression as a function of the loop value (evaluated pointwise by mapping a CasADi
+   function over the values, :65-69); bare = the subscript is the loop variable itself (:70-71) *)
+Definition loop_pathF (c : cfg) (n start stop step : Z) (f : Z -> Z) (bare : bool) : res (list Z) :=
   if step =? 0 then ErrB (* np.arange: ZeroDivisionError *) else
   let values := pyrange start (if mod3 c then stop + sgn1 step else stop + step) step in   (* :58 *)
-  let indices := map (fun v => v + off) values in                                          (* :64-71 *)
+  let indices := map f values in                                                           (* :64-71 *)
   (* :65-68 an index expression other than the bare loop variable is evaluated by mapping a CasADi
      function over the loop values; CasADi refuses a map over zero values *)
-  if negb (off =? 0) && negb (empty_ok c) && (match values with [] => true | _ => false end) then ErrB else
-  if chk_loop c && negb (all_in n indices) then ErrV else     (* repaired: min < 1 or max > dim *)
+  if negb bare && negb (empty_ok c) && (match values with [] => true | _ => false end) then ErrB else
+  if chk_loop c && negb (all_in n indices) then ErrV else     (* repaired: np.min < 1 or np.max > dim, over ALL indices *)
   shift1 (mapM (ca_wrap n) (map (fun k => k - 1) indices)).   (* :72 indices - 1, :512 orig_symbol[indices] *)
+Definition loop_path (c : cfg) (n start stop step off : Z) : res (list Z) :=
+  loop_pathF c n start stop step (fun v => v + off) (off =? 0).
 
 (* ---- get_indexed_symbol, one (index, dim) pair of the loop at :858-906 -------------------- *)
 Definition index (c : cfg) (n : Z) (u : sub) : res (list Z) :=
@@ -119,6 +137,7 @@ Definition index (c : cfg) (n : Z) (u : sub) : res (list Z) :=
   | Sl3 a b c3 => if mod3 c then slice_path c n a c3 b else slice_path c n a b c3   (* parser.py:344-352 *)
   | LoopV a b off => loop_path c n a b 1 off
   | LoopV3 a b c3 off => if mod3 c then loop_path c n a c3 b off else loop_path c n a b c3 off
+  | LoopX a b e => loop_pathF c n a b 1 (leval e) (is_var e)
   end.
 
 (* ---- the specification: Modelica subscripts (1-based, inclusive, start:step:stop) ---------- *)
@@ -134,6 +153,7 @@ Definition modelica (n : Z) (u : sub) : res (list Z) :=
   | Sl3 a s b => guard n (mrange a s b)
   | LoopV a b off => guard n (map (fun v => v + off) (mrange a 1 b))
   | LoopV3 a s b off => guard n (map (fun v => v + off) (mrange a s b))
+  | LoopX a b e => guard n (map (leval e) (mrange a 1 b))
   end.
 
 (* the step of a subscript, for the side condition "step <> 0" *)
@@ -146,7 +166,7 @@ Definition three_part (u : sub) : bool :=
 Definition prod2 (l1 l2 : list Z) : list (Z * Z) :=
   flat_map (fun c => map (fun r => (r, c)) l1) l2.
 Definition is_loop (u : sub) : bool :=
-  match u with LoopV _ _ _ => true | LoopV3 _ _ _ _ => true | _ => false end.
+  match u with LoopV _ _ _ => true | LoopV3 _ _ _ _ => true | LoopX _ _ _ => true | _ => false end.
 (* when the error of a dimension surfaces: the ValueErrors of scalar and slice subscripts are raised
    inside the loop over the dimensions (:858-906); then the non-loop dimension is handed to CasADi
    (:911/:932 or :944-946); then register_indexed_symbol checks the loop indices (repaired code);
@@ -168,6 +188,23 @@ Definition modelica2 (n m : Z) (u v : sub) : res (list (Z * Z)) :=
   | Ok l1, Ok l2 => Ok (prod2 l1 l2)
   | ErrV, _ => ErrV | ErrB, _ => ErrB | Ok _, ErrV => ErrV | Ok _, ErrB => ErrB
   end.
+
+(* ---- subscripts on a SCALAR symbol (dim is None at :858-906), incl. a scalar member of a component
+   array (a[1].x[..]) and a scalar component (a[..].v[1]) ------------------------------------------- *)
+Definition bare_loop (u : sub) : bool :=
+  match u with
+  | LoopV _ _ off => off =? 0 | LoopV3 _ _ _ off => off =? 0 | LoopX _ _ e => is_var e | _ => false end.
+(* k = size1() of what the loop ends up indexing: 1 for a scalar / scalar member, the length of v for
+   a[i].v[1] with a scalar component a (the loop variable then runs over v's dimension) *)
+Definition index_scalar (c : cfg) (k : Z) (u : sub) : res (list Z) :=
+  if is_loop u && (loop_step c u =? 0) then ErrB        (* ForLoop.__init__ runs first *)
+  else if bare_loop u && negb (chk_scalar_loop c)
+       (* :864-869 sl = the loop's index variable, so the `sl is None` block with the "not an array" test
+          (:876-885) is skipped; the symbol is then indexed like a dimension of size1() = k *)
+       then index c k u
+  else ErrV.                                             (* :876-885 "... but this symbol is not an array" *)
+(* specification: a subscript on a scalar is always an error *)
+Definition modelica_scalar (u : sub) : res (list Z) := ErrV.
 
 (* ---- correspondence ------------------------------------------------------------------------ *)
 (* observed outcome: 0 = selection, 1 = ValueError, 2 = other exception.  A selection is the list of
@@ -196,3 +233,7 @@ Definition check_case (c : cfg) (x : Z * sub * option (Z * sub) * Z * list Z) : 
   | None => obs_eq (index c n u) kind sel
   | Some (m, v) => obs_eq (rmap (fun l => sortZ (map (fun p => fst p * 100 + snd p) l)) (index2 c n m u v)) kind sel
   end.
+
+(* scalar symbols: case = (k, u, observed kind, observed selection (rows r, in residual order)) *)
+Definition check_scalar (c : cfg) (x : Z * sub * Z * list Z) : bool :=
+  let '(k, u, kind, sel) := x in obs_eq (index_scalar c k u) kind sel.
